@@ -229,6 +229,8 @@ prop("C09", bounds=LOCK_BOUNDS,
            quick={"params": {"readers": 2, "writers": 2, "preempt": 1}}, thorough={"params": {"readers": 2, "writers": 2, "preempt": 2}, "max_paths": 400000, "budget": "900s"}),
          HS(200, "txfile.VerifLockProtocol", "same", "2R+1W, 2 preemptions",
            quick={"params": {"readers": 2, "writers": 1, "preempt": 2}}, thorough={"params": {"readers": 3, "writers": 1, "preempt": 2}, "max_paths": 400000, "budget": "900s"}),
+         HS(30, "txfile.VerifFileConcurrent", "same with an Observer installed (the application watches FileStats): no data race on the statistics", "1 reader, 1 preemption, observer",
+           quick={"params": {"readers": 1, "preempt": 1, "observer": 1}}, thorough={"params": {"readers": 2, "preempt": 1, "observer": 1}, "max_paths": 400000, "budget": "1200s"}),
          H("txfile.VerifCloseConcurrent", "File.Close while a transaction is open: waits for it, does not block readers the writer's owner starts, no deadlock", "read-only / write transaction, commit / rollback",
            thorough={"params": {"preempt": 1}}),
          H("txfile.VerifLockBalance", "every ending of a transaction (commit, rollback, close, failing commit; read-only close/commit/rollback) leaves the lock idle; Begin/BeginReadonly/Close return", "2 rounds x 7 endings, fault on write/sync at 2 ordinals"),
